@@ -49,9 +49,7 @@ def initSymbolic [Zero α] (c : Cfg α) (A : Csr α) (st : PState α) : Except S
       | none => .error .exc
       | some s0 =>
         let s := factorizeSymbolic s0 p
-        .ok { st with iluS := some s,
-                      iluN := { dataL := Array.replicate s.ciL.size 0, dataU := Array.replicate s.ciU.size 0,
-                                dataD := Array.replicate s.n 0 } }
+        .ok { st with iluS := some s, iluN := allocData s }
   | _ => .ok st
 
 /-- `init_numeric()`; a zero pivot is a division by zero (abort at the exact scalar type) -/
@@ -66,7 +64,8 @@ def initNumeric [Zero α] [One α] [Sub α] [Mul α] [Div α] [DecidableEq α] (
     match st.iluS with
     | none => .ok st
     | some s =>
-      let f := factorizeNumeric s (copyDataCsr s A)
+      -- the data arrays of the object are overwritten in place (`copy_data`), then factorised in place
+      let f := factorizeNumeric s (copyDataCsr s A st.iluN)
       if f.dataD.any (· = 0) then .error .abort else .ok { st with iluN := f }
   | _ => .ok st
 
